@@ -8,3 +8,4 @@ import AikenVerif.Props.C20
 import AikenVerif.Props.C11
 import AikenVerif.Props.C12
 import AikenVerif.Props.C18
+import AikenVerif.Props.C17
